@@ -250,7 +250,7 @@ def build_groups(gen, tier, hists_plain, hists_wtd):
     rng = gen.rng
     ident = affine(1, 0)
     # 1. TLC-exported histories
-    np_, nw_ = (1500, 500) if tier == "quick" else (14000, 4000)
+    np_, nw_ = (1500, 500) if tier == "quick" else (20000, 5000)
     sel_p = hists_plain if len(hists_plain) <= np_ else rng.sample(hists_plain, np_)
     sel_w = hists_wtd if len(hists_wtd) <= nw_ else rng.sample(hists_wtd, nw_)
     for i, h in enumerate(sel_p):
@@ -262,7 +262,7 @@ def build_groups(gen, tier, hists_plain, hists_wtd):
         a, b, se = fr[i % len(fr)]
         gen.weighted_group(h, affine(a, b), se, "tlc-wtd", full=(i % 2 == 0))
     # 2. seeded random split / merge histories
-    nrp, nrw = (500, 250) if tier == "quick" else (5000, 2500)
+    nrp, nrw = (500, 250) if tier == "quick" else (6000, 3000)
     for i in range(nrp):
         g = gen.new_group("rnd-plain")
         gen.plain_history(g, random_ops(rng, False), ident, rng.choice([0, 0, 0, -200, 200, -30, 17, 3, -3]))
@@ -304,6 +304,8 @@ def record_and_validate(v, exe, vn, groups_by_shard, gen, out, grp_index):
         v.add_tlc(tv.tlc, "SummaryTrace over shard %d on %s build (%d lines)" % (si, vn, len(lines)))
         if si == 0:
             v.sample([l.strip()[:300] for l in lines[1:5]])
+        if not tv.rejects and si != 0:
+            os.remove(tp); os.remove(sp)          # scratch: keep shard 0 and the shards that carry a rejection
         for rj in tv.rejects:
             if rj["rule"].startswith("harness-"):
                 raise vlib.MachineryError("trace spec reports harness problem: %s" % rj)
@@ -327,7 +329,24 @@ def record_and_validate(v, exe, vn, groups_by_shard, gen, out, grp_index):
     return nh, nobs
 
 
+def _sweep_tlc_litter():
+    """TLC writes <Module>_TTrace_* files next to the spec when it stops with an error"""
+    for fn in os.listdir(vlib.SPEC):
+        if fn.startswith(("Summary_TTrace_", "SummaryTrace_TTrace_")):
+            try:
+                os.remove(os.path.join(vlib.SPEC, fn))
+            except OSError:
+                pass
+
+
 def run(tier, replay=None):
+    try:
+        return _run(tier, replay)
+    finally:
+        _sweep_tlc_litter()
+
+
+def _run(tier, replay=None):
     v = vlib.Verdict(PID, "model_checking", tier)
     v.assumptions = [
         "statistics pinned as documented in the headers: variance M2/(n-1), skewness sqrt(n(n-1))/(n-2) * sqrt(n) M3/M2^1.5, "
@@ -347,6 +366,9 @@ def run(tier, replay=None):
     for fn in os.listdir(out):
         if fn.startswith(("script_", "trace_")):
             os.remove(os.path.join(out, fn))
+    if not replay and os.path.isdir(os.path.join(out, "replay")):
+        for fn in os.listdir(os.path.join(out, "replay")):
+            os.remove(os.path.join(out, "replay", fn))
     vlib.build_lib(PID, "rel")
     variants = [("rel", vlib.cc_harness(PID, "rel", "sum_replay"))]
     if tier == "thorough":
@@ -386,14 +408,16 @@ def run(tier, replay=None):
         with open(cfgp, "w") as f:
             f.write(MC % par)
         try:
-            return item, vlib.tlc(PID, "Summary", os.path.basename(cfgp), workers=workers, timeout=2400, tag="mc_" + name,
-                                  extra=("-noGenerateSpecTE",))
+            return vlib.tlc(PID, "Summary", os.path.basename(cfgp), workers=workers, timeout=2400, tag="mc_" + name,
+                            extra=("-noGenerateSpecTE",))
         finally:
             os.remove(cfgp)
-    with ThreadPoolExecutor(max_workers=len(cfgs)) as ex:
-        mcres = list(ex.map(mc, cfgs))
+    mcpool = ThreadPoolExecutor(max_workers=len(cfgs))
+    futs = [(item, mcpool.submit(mc, item)) for item in cfgs]
     hists_plain, hists_wtd = set(), set()
-    for (name, par, workers), r in mcres:
+
+    def collect(item, r):
+        name, par, workers = item
         if r.error:
             raise vlib.MachineryError("Summary model checking (%s): %s" % (name, r.error))
         v.add_tlc(r, "Summary.tla %s: %s" % (name, ", ".join("%s=%s" % kv for kv in sorted(par.items()) if kv[0] != "export")))
@@ -405,6 +429,10 @@ def run(tier, replay=None):
             if len(hs) != r.generated - 1:
                 v.notes.append("config %s: %d histories exported for %d transitions" % (name, len(hs), r.generated - 1))
             (hists_wtd if par["weighted"] == "TRUE" else hists_plain).update(hs)
+    # the exporting configurations first; the others keep running while the traces are recorded and validated
+    for item, fu in futs:
+        if item[1]["export"] == "TRUE":
+            collect(item, fu.result())
     hists_plain, hists_wtd = sorted(hists_plain), sorted(hists_wtd)
     v.cov["tlc_histories_explored"] = {"plain": len(hists_plain), "weighted": len(hists_wtd)}
 
@@ -436,6 +464,10 @@ def run(tier, replay=None):
             sub = shards
         nh, nobs = record_and_validate(v, exe, vn, sub, gen, out, grp_index)
         nh_total += nh; nobs_total += nobs
+    for item, fu in futs:
+        if item[1]["export"] != "TRUE":
+            collect(item, fu.result())
+    mcpool.shutdown()
     v.cov["traces_validated_against_impl"] = nh_total
     v.cov["evaluations"] = nobs_total
     v.cov["distinct_nontrivial"] = len({tuple(g[1][1:]) for g in gen.groups if len(g[1]) > 3})
